@@ -20,6 +20,12 @@ pub enum Universe {
     /// `pairs`: None = every file pair; Some(list of capturer files) restricts the capturer's file.
     /// `extra_codes`: which piece codes may be the extra piece (relative to White-to-move orientation; mirrored for Black)
     UE { extras: u8, capturer_files: Option<Vec<i8>>, slider_only: bool },
+    /// castling with the enemy king anywhere: castler's king on e1 with K-side / Q-side / both rooks and rights, the
+    /// enemy king on every square, plus `extras` (0/1) extra pieces; both colours (mirror), both sides to move
+    UCK { extras: u8 },
+    /// en-passant aliasing family: capturer pawn + double-pushed pawn beside it (ep set) + one more pawn of either
+    /// colour anywhere on the capturer's file or the victim's file; kings on a few fixed safe squares; both colours
+    UEA,
     /// promotion family: a pawn on its 7th rank on each file with 0..=2 capturable enemy pieces (r,n,q) on the adjacent 8th-rank squares and optionally a blocker in front, kings on a fixed pair of safe squares sets
     UP,
 }
@@ -33,13 +39,16 @@ impl Universe {
             Universe::UC { extras } => format!("UC+{}", extras),
             Universe::UE { extras, capturer_files, slider_only } => format!("UE+{}{}{}", extras, if *slider_only { "sliders" } else { "" }, match capturer_files { Some(v) => format!("files{:?}", v), None => String::new() }),
             Universe::UP => "UP".into(),
+            Universe::UCK { extras } => format!("UCK+{}", extras),
+            Universe::UEA => "UEA".into(),
         }
     }
 
     /// number of independent work units (for sharding over threads)
     pub fn units(&self) -> usize {
         match self {
-            Universe::U2 | Universe::U3 | Universe::U4 { .. } | Universe::UE { .. } => 64,
+            Universe::U2 | Universe::U3 | Universe::U4 { .. } | Universe::UE { .. } | Universe::UCK { .. } => 64,
+            Universe::UEA => 8,
             Universe::UC { .. } => 81,
             Universe::UP => 8,
         }
@@ -76,6 +85,8 @@ impl Universe {
             Universe::UC { extras } => uc_unit(unit, *extras, f),
             Universe::UE { extras, capturer_files, slider_only } => ue_unit(unit as u8, *extras, capturer_files.as_deref(), *slider_only, f),
             Universe::UP => up_unit(unit as i8, f),
+            Universe::UCK { extras } => uck_unit(unit as u8, *extras, f),
+            Universe::UEA => uea_unit(unit as i8, f),
         }
     }
 }
@@ -339,6 +350,92 @@ fn up_unit(file: i8, f: &mut dyn FnMut(Pos)) {
                     let m = p.mirror();
                     if m.sane() {
                         f(m);
+                    }
+                }
+            }
+        }
+    }
+}
+
+/// unit = enemy king square
+fn uck_unit(ek: u8, extras: u8, f: &mut dyn FnMut(Pos)) {
+    let mut emit = |p: Pos| {
+        for white in [true, false] {
+            let mut q = p;
+            q.white = white;
+            if q.sane() {
+                f(q);
+            }
+            let m = q.mirror();
+            if m.sane() {
+                f(m);
+            }
+        }
+    };
+    for (rooks, rights) in [(vec![7u8], RIGHT_WK), (vec![0u8], RIGHT_WQ), (vec![0u8, 7u8], RIGHT_WK | RIGHT_WQ)] {
+        let mut p = Pos::empty();
+        p.b[4] = WK;
+        let mut ok = ek != 4 && !adjacent(4, ek);
+        for r in &rooks {
+            if *r == ek {
+                ok = false;
+            }
+            p.b[*r as usize] = code(R, true);
+        }
+        if !ok {
+            continue;
+        }
+        p.b[ek as usize] = BK;
+        p.rights = rights;
+        if extras == 0 {
+            emit(p);
+        } else {
+            for c in 1..=12u8 {
+                if kind_of(c) == K {
+                    continue;
+                }
+                place_one(&p, c, None, &mut |q, _| emit(q));
+            }
+        }
+    }
+}
+
+/// unit = capturer file
+fn uea_unit(cf: i8, f: &mut dyn FnMut(Pos)) {
+    let king_sets: [(u8, u8); 3] = [(sq(0, 4), sq(7, 4)), (sq(0, 0), sq(7, 7)), (sq(2, 7), sq(5, 0))];
+    for df in [-1i8, 1] {
+        let vf = cf + df;
+        if !(0..8).contains(&vf) {
+            continue;
+        }
+        for (wk, bk) in king_sets {
+            let mut p = Pos::empty();
+            let (cap, vic) = (sq(4, cf), sq(4, vf));
+            if [cap, vic, sq(5, vf), sq(6, vf)].contains(&wk) || [cap, vic, sq(5, vf), sq(6, vf)].contains(&bk) {
+                continue;
+            }
+            p.b[wk as usize] = WK;
+            p.b[bk as usize] = BK;
+            p.b[cap as usize] = code(P, true);
+            p.b[vic as usize] = code(P, false);
+            p.white = true;
+            p.ep = Some(sq(5, vf));
+            for file in [cf, vf] {
+                for rank in 1..7i8 {
+                    for c in [code(P, true), code(P, false)] {
+                        let s = sq(rank, file);
+                        if p.b[s as usize] != 0 || s == sq(5, vf) || s == sq(6, vf) {
+                            continue;
+                        }
+                        let mut q = p;
+                        q.b[s as usize] = c;
+                        if q.sane() && q.engine_ep_file() != 8 {
+                            f(q);
+                            let m = q.mirror();
+                            if m.sane() && m.engine_ep_file() != 8 {
+                                f(m);
+                            }
+                        }
                     }
                 }
             }
